@@ -191,7 +191,7 @@ pub fn def() -> PropDef {
         title: "Stores in the top-level registry are isolated and keep their own last result",
         rule: "random valid call sequences (3-30 calls) over three store ids {0, 7, 1000003} through create_store / destroy_store / add_record / set_limit (0-12, sometimes 65536) / highlight_with / run_search / using_results; validity by construction (the decoder tracks which ids exist); all stores draw titles from one shared vocabulary so that cross-talk would look plausible. Model per id = (language, records, limit, markers, last result); the last result is computed by a stand-alone Store in a fresh thread at run_search time; after EVERY call every live id's buffer is compared with its model. Non-trivial = searches interleaved between >= 2 live ids, or a destroy followed by re-create; distinct = distinct sequence",
         assumptions: &["each case runs in its own thread, so the thread-local registry starts empty"],
-        spaces: vec![Space { name: "calls", decode, plan: |t| Plan::Random(t.n(30_000, 1_000_000)) }],
+        spaces: vec![Space { name: "calls", decode, plan: |t| Plan::Random(t.n(100_000, 2_000_000)) }],
         differential: false,
     }
 }
